@@ -213,11 +213,12 @@ class Env(object):
                         for it in items:
                             ops.append(('add', lbl, a.name, it))
                             ops.append(('remove', lbl, a.name, it))
+                        ops.append(('add', lbl, a.name, self.labels_of(a.py_type.__name__, (3,))[0]))   # an object created in this session
                         ops.append(('clear', lbl, a.name))
                         ops.append(('assign', lbl, a.name, (items[0],)))
                         ops.append(('assign', lbl, a.name, tuple(items)))
                     elif a.reverse:
-                        vals = [('ref', l) for l in self.labels_of(a.py_type.__name__)]
+                        vals = [('ref', l) for l in self.labels_of(a.py_type.__name__, (1, 2, 3))]    # 3: an object created in this session
                         if not a.is_required: vals = [None] + vals
                         for v in vals: ops.append(('set', lbl, a.name, v))
                     else:
